@@ -1,5 +1,5 @@
 (* C19 — a node whose clock could be off by >= the election timeout refuses to join. *)
-From Coq Require Import ZArith List.
+From Coq Require Import ZArith List Permutation.
 From RV Require Import Tsg.Safeguard Tsg.SafeguardProofs.
 Import ListNotations.
 Local Open Scope Z_scope.
@@ -32,3 +32,17 @@ Print Assumptions C19_ignore_silent.
 Theorem C19_disabled : forall ET ms off, decide ET true ms <> Refuse off.
 Proof. exact disabled_never_refuses. Qed.
 Print Assumptions C19_disabled.
+
+(* the title, literally: a clock that COULD be off by >= ET (an offset of that magnitude is
+   consistent with what was measured against some answering peer) makes the node refuse *)
+Theorem C19_could_be_off_refuses : forall ET ms st en r theta,
+  In (Meas st en (Some r)) ms -> explains theta (st, en, r) -> ET <= Z.abs theta ->
+  decide ET false ms = Refuse (offenders ET (answered ms)) /\ In (st, en, r) (offenders ET (answered ms)).
+Proof. exact could_be_off_refuses. Qed.
+Print Assumptions C19_could_be_off_refuses.
+
+(* schedules: the order in which the peers' answers were collected does not matter *)
+Theorem C19_order_irrelevant : forall ET d ms ms',
+  Permutation ms ms' -> same_verdict (decide ET d ms) (decide ET d ms').
+Proof. exact order_irrelevant. Qed.
+Print Assumptions C19_order_irrelevant.
